@@ -7,14 +7,17 @@ import ast
 HEADER = "from nada_dsl import *\n"
 
 # --- strict-subset fragments (each returns lines of the nada_main body) -----------------------------
-def base_program(rng):
+def base_program(rng, wrong=False):
     L = []
     nparties = rng.choice([1, 1, 2])
     for i in range(nparties):
         L.append(rng.choice([f'p{i} = Party(name="P{i}")', f'p{i} = Party("P{i}")']))
     ints, bools, lists = [], [], []
+    cls_of, helpers = {}, []
+    RANK = {"Integer": 0, "PublicInteger": 1, "SecretInteger": 2}
     for i in range(rng.randint(1, 4)):
         cls = rng.choice(["SecretInteger", "SecretInteger", "PublicInteger"])
+        cls_of[f"x{i}"] = cls
         p = f"p{rng.randrange(nparties)}"
         form = rng.choice(['{c}(Input(name="x{i}", party={p}))', '{c}(Input("x{i}", {p}))', '{c}(Input("x{i}", party={p}))',
                            '{c}(Input(party={p}, name="x{i}"))'])
@@ -23,6 +26,7 @@ def base_program(rng):
     if rng.random() < 0.5:
         L.append(f"k = Integer({rng.choice([0, 1, 5, 12345678901234567890])})")
         ints.append("k")
+        cls_of["k"] = "Integer"
     n = 0
     for _ in range(rng.randint(1, 8)):
         k = rng.random()
@@ -54,6 +58,24 @@ def base_program(rng):
         elif k < 0.91:
             L.append(f"v{n} = {rng.choice(['-', '+'])}{a}")
             ints.append(f"v{n}")
+        elif k < 0.935 and a in cls_of and b in cls_of:
+            # a helper function with annotated parameters; its declared return type is the class of the returned
+            # value (`wrong`: a less / more secret class, which the checker must report)
+            ca, cb = cls_of[a], cls_of[b]
+            ret = max(ca, cb, key=RANK.get)
+            if wrong and rng.random() < 0.5:
+                ret = rng.choice([c for c in RANK if c != ret])
+            helpers.append(f"def h{n}(p: {ca}, q: {cb}) -> {ret}:\n    t = p {rng.choice(['+', '-', '*'])} q\n    return t\n")
+            L.append(f"v{n} = h{n}({a}, {b})")
+            ints.append(f"v{n}")
+            cls_of[f"v{n}"] = ret
+        elif k < 0.95 and a in cls_of and b in cls_of:
+            # assignment through a subscript: the item must have the list's item type (`wrong`: another class)
+            item = b if (cls_of[a] == cls_of[b] or wrong) else a
+            L.append(f"s{n} = [{a}, {a}]")
+            L.append(f"s{n}[{rng.randint(0, 1)}] = {item}")
+            L.append(f"v{n} = s{n}[0] + s{n}[1]")
+            ints.append(f"v{n}")
         elif k < 0.96:
             # nested lists whose rows differ in secrecy / constness, then reads through them
             rows = [[rng.choice(ints) for _ in range(rng.randint(1, 2))] for _ in range(rng.randint(2, 3))]
@@ -70,6 +92,7 @@ def base_program(rng):
         outs.append(rng.choice([f'Output({v}, "o{i}", {p})', f'Output(value={v}, name="o{i}", party={p})',
                                 f'Output({v}, name="o{i}", party={p})', f'Output({v}, "o{i}", party={p})']))
     L.append("return [" + ", ".join(outs) + "]")
+    base_program.helpers = helpers
     return L, ints, bools, lists
 
 
@@ -188,8 +211,10 @@ def generate(rng, mode=None):
     """mode: 'clean' (strict subset, well typed), 'typed' (type errors), 'zoo' (arbitrary syntax),
     'corrupt' (syntax errors); default: random mix"""
     mode = mode or rng.choice(["clean", "clean", "typed", "zoo", "zoo", "zoo", "corrupt"])
-    body, ints, bools, lists = base_program(rng)
-    helpers = [h for h in HELPERS if rng.random() < 0.3]
+    # `wrong`: a helper whose declared return type is not the class it returns / an item assignment of another class —
+    # also in otherwise clean programs, so that such a flaw is the only one the checker has to notice
+    body, ints, bools, lists = base_program(rng, wrong=(mode == "typed" or rng.random() < 0.25))
+    helpers = [h for h in HELPERS if rng.random() < 0.3] + list(base_program.helpers)
     if mode in ("typed", "zoo", "corrupt"):
         for _ in range(rng.randint(1, 4 if mode == "typed" else 7)):
             pos = rng.randrange(len(body))
